@@ -96,6 +96,12 @@ def sched_parts(pid: str, tier: str):
     elif pid == "C17":
         mons = ("C17", "C01", "C03")
         mk("whole-run-N3-both-flavours", Cfg(N=3, resources="tma", flavours="sa", monitors=mons), base_req, 600)
+        from harness.threads import TCfg, run_threads
+
+        parts.append(Part("concurrent-awaits-2", P(run_threads, TCfg(mode="awaits", threads=2)), {"awaits": 2, "N": 3, "shapes": 3, "nodes": "async-thread (one optionally thread)", "max_concurrency": "1..3",
+                          "choices": "which suspended coroutine resumes, which futures finish", "setup": "optional setup node, optionally set up before"}, 900, 8, ["w_interleaved"], SCHED_FUNCS))
+        if not q:
+            parts.append(Part("concurrent-awaits-3", P(run_threads, TCfg(mode="awaits", threads=3)), {"awaits": 3, "N": 3}, 2400, 9, ["w_interleaved"], SCHED_FUNCS))
     return parts
 
 
@@ -244,6 +250,27 @@ def history_parts(pid: str, tier: str):
     return parts
 
 
+THREAD_FUNCS = ["tawazi._dag.constructor.threadsafe_make_dag", "tawazi._dag.constructor.wrap_make_dag", "tawazi.node.node.is_describing", "tawazi.node.node.LazyExecNode.__call__",
+                "tawazi._dag.dag.DAG.__call__", "tawazi._dag.dag.DAG.run_subgraph", "tawazi._dag.dag.AsyncDAG.__call__", "tawazi._dag.dag.AsyncDAG.run_subgraph", "tawazi._dag.dag.AsyncDAG.setup",
+                "tawazi._dag.helpers.async_execute", "tawazi._dag.helpers.extend_results_with_args", "tawazi._dag.helpers.copy_non_setup_xns"]
+
+
+def thread_parts(pid: str, tier: str):
+    from harness.threads import TCfg, run_threads
+
+    P = functools.partial
+    q = tier == "quick"
+    parts = []
+    if pid == "C16":
+        parts.append(Part("two-threads-one-dag", P(run_threads, TCfg(mode="calls", threads=2)), {"threads": 2, "N": 3, "shapes": 3, "granularity": "every alternation of the two threads at node entries", "setup": "optional setup node, run before"},
+                          900, 6, ["w_interleaved"], THREAD_FUNCS))
+        parts.append(Part("build-vs-other-thread", P(run_threads, TCfg(mode="build")), {"pause points": 4, "operations of the other thread": "call a DAG (default supplied / omitted), call a decorated function (ignore / error behaviour), build another DAG"},
+                          900, 6, ["w_build", "w_call_dag", "w_call_xn_ignore"], THREAD_FUNCS))
+        if not q:
+            parts.append(Part("three-threads-one-dag", P(run_threads, TCfg(mode="calls", threads=3, N=3)), {"threads": 3, "N": 3}, 2400, 8, ["w_interleaved"], THREAD_FUNCS))
+    return parts
+
+
 def dataclass_bounds(cfg):
     import dataclasses
 
@@ -290,6 +317,10 @@ def main(argv):
         rule = ("operation histories on one DAG instance: every sequence of operations up to the stated length x program / setup placement / selection is a solver-chosen path; "
                 "call arguments are fresh symbolic values and node values are terms, so result equalities are decided by z3; distinct = distinct (program, history)")
         return run_check(pid, tier, "model_checking", history_parts(pid, tier), REAL_ENV_ASSUMPTIONS, rule)
+    if pid == "C16":
+        rule = ("real threads under a cooperative controller: the order in which threads pass node-entry gates / the pause point of a build and the other thread's operation are solver-chosen; "
+                "results are terms over per-thread symbolic arguments; distinct = distinct (shape, alternation) resp. (pause point, operation)")
+        return run_check(pid, tier, "model_checking", thread_parts(pid, tier), REAL_ENV_ASSUMPTIONS + ["threads interleave only at node entries and at the chosen pause point of a describing function; finer interleavings are outside the claim"], rule)
     print("HARNESS-ERROR unknown property %s" % pid)
     return 2
 
